@@ -109,6 +109,22 @@ def homogeneous_cases(rng):
                         b = [rng.choice(pool) for _ in range(len(a))]
                     rng.shuffle(a)
                     cs.append({"op": "arith", "fn": fn, "a": a, "b": b, "form": form})
+    # operators that LEAVE the operands' kind: int ** negative int is a float, negative float ** fraction is a
+    # complex, int / int is a float, bool + bool is an int (no zero base, so Python defines every scalar result)
+    leave = [("pow", [["i", 2], ["i", 4]], ["i", -1]), ("pow", [["i", -2], ["i", 3]], ["i", -3]),
+             ("pow", [["f", (-8.0).hex()], ["f", (4.0).hex()]], ["f", (0.5).hex()]),
+             ("pow", [["f", (-2.0).hex()], ["f", (-9.0).hex()]], ["f", (1.5).hex()]),
+             ("truediv", [["i", 7], ["i", 2]], ["i", 2]), ("add", [["b", True], ["b", True]], ["b", True]),
+             ("sub", [["b", False], ["b", True]], ["b", True]), ("mul", [["b", True], ["b", False]], ["b", True]),
+             ("rsub", [["i", 3], ["i", 5]], ["i", 1]), ("pow", [["c", (0.0).hex(), (1.0).hex()]], ["c", (2.0).hex(), (0.0).hex()])]
+    for fn, a, b in leave:
+        for nullable in (False, True):
+            aa = a + ([["N"]] if nullable else [])
+            cs.append({"op": "arith", "fn": fn, "a": aa, "b": b, "form": "scalar"})
+            cs.append({"op": "arith", "fn": fn, "a": aa, "b": [b] * len(aa), "form": "vec"})
+            cs.append({"op": "arith", "fn": fn, "a": aa, "b": [b] * len(aa), "form": "list"})
+        if fn == "pow":                                       # scalar ** vector
+            cs.append({"op": "arith", "fn": "rpow", "a": [b, b], "b": a[0], "form": "scalar"})
     return cs
 
 
